@@ -281,6 +281,43 @@ fn workload(dir: &str, name: &str) -> lsm_tree::Result<()> {
                 }
             }
         }
+        // two drop_ranges that hit tables pointing into the same blob file: the garbage of both must be reported (C09)
+        "drop-range-stale-bytes" => {
+            let seqno = SequenceNumberCounter::default();
+            let vis = SequenceNumberCounter::default();
+            let tree = Config::new(dir, seqno, vis)
+                .with_kv_separation(Some(KvSeparationOptions::default().separation_threshold(16)))
+                .open()?;
+            for i in 0..3000u32 {
+                tree.insert(format!("k{i:05}"), vec![b'x'; 100], u64::from(i));
+            }
+            tree.flush_active_memtable(0)?;
+            tree.major_compact(1_024, 0)?;
+            println!("TABLES {} BLOB_FILES {}", tree.table_count(), tree.blob_file_count());
+            let on_disk_of = |lo: &str, hi: &str| -> u64 {
+                let mut sum = 0;
+                for t in tree.current_version().iter_tables() {
+                    let kr = &t.metadata.key_range;
+                    if &**kr.min() >= lo.as_bytes() && &**kr.max() <= hi.as_bytes() {
+                        for l in t.list_blob_file_references().unwrap().unwrap_or_default() {
+                            sum += l.on_disk_bytes;
+                        }
+                    }
+                }
+                sum
+            };
+            let e1 = on_disk_of("k00000", "k00999");
+            tree.drop_range("k00000"..="k00999")?;
+            let s1 = tree.stale_blob_bytes();
+            let e2 = on_disk_of("k01000", "k01999");
+            tree.drop_range("k01000"..="k01999")?;
+            let s2 = tree.stale_blob_bytes();
+            println!("after 1st drop: expected {e1} reported {s1}; after 2nd drop: expected {} reported {s2} (tables {} blob files {})", e1 + e2, tree.table_count(), tree.blob_file_count());
+            if e1 > 0 && e2 > 0 && tree.blob_file_count() > 0 && (s1 != e1 || s2 != e1 + e2) {
+                println!("DEMONSTRATED: stale_blob_bytes does not report the garbage of both drops");
+                std::process::exit(7);
+            }
+        }
         // FIFO drop whose version GC fails (old version file replaced by a directory => unlink fails)
         "fifo-gc-fail" => {
             let tree = open(dir, false)?;
